@@ -6,7 +6,8 @@
 * the texture string table: what `_lmp_write_textures` searches for in the block written so far, what it appends when
   nothing is found, the longest name its guard lets through, the window in which `_lmp_read_textures` looks for the
   terminator, and the codecs of both sides;
-* (see c11_records.py for the per-record field orders.)
+* (see c11_records.py for the per-record field orders and c11_dedup.py for the keys of the de-duplicating index tables,
+  c11_helpers.py for helper properties handed to pack calls.)
 
 Fail-closed: every statement of the decisive loops must be recognised, otherwise TranslateError.
 """
@@ -16,6 +17,9 @@ import ast
 from typing import Any
 
 from harness.common import TranslateError, src_text
+
+
+NORMALISED = {'runlength_decode', '_lmp_read_visibility', '_lmp_write_visibility', '_lmp_write_textures', '_lmp_read_textures', 'write_ent_data'}
 
 
 def _fn(tree: ast.AST, name: str) -> ast.FunctionDef:
@@ -137,6 +141,70 @@ def vis_writer(tree: ast.Module) -> tuple[str, bool, str]:
     if len(assigns) != 1:
         raise TranslateError(f'_lmp_write_visibility: expected exactly one assignment of `{guard_var}`')
     return rexp(assigns[0].value, cnt, '_lmp_write_visibility'), True, ast.unparse(assigns[0].value)
+
+
+def vis_offset_order(tree: ast.Module) -> tuple[list[str], list[str]]:
+    """Which row set (potentially_visible / potentially_audible) each of the two offsets of a cluster's header entry belongs to:
+    writer `off = data.tell(); data.write(runlength_encode(rows_of_X)); ...; writes.set_data(ind, off1, off2)`,
+    reader `[a, b] = <struct>.unpack_from(data, pos); vis.X.append(runlength_decode(data, a, n))`."""
+    fw = _fn(tree, '_lmp_write_visibility')
+    worder = None
+    for loop in [n for n in fw.body if isinstance(n, ast.For)]:
+        it = loop.iter
+        if isinstance(it, ast.Call) and ast.unparse(it.func) == 'enumerate' and it.args:
+            it, tgt = it.args[0], loop.target.elts[1] if isinstance(loop.target, ast.Tuple) and len(loop.target.elts) == 2 else None
+        else:
+            tgt = loop.target
+        if not (isinstance(it, ast.Call) and ast.unparse(it.func) == 'zip' and isinstance(tgt, ast.Tuple) and len(tgt.elts) == len(it.args)
+                and all(isinstance(t, ast.Name) for t in tgt.elts) and all(isinstance(a, ast.Attribute) for a in it.args)):
+            continue
+        var_attr = {t.id: a.attr for t, a in zip(tgt.elts, it.args)}
+        pending: list[str] = []
+        off_attr: dict[str, str] = {}
+        for st in loop.body:
+            if isinstance(st, ast.Assign) and len(st.targets) == 1 and isinstance(st.targets[0], ast.Name) \
+                    and isinstance(st.value, ast.Call) and ast.unparse(st.value.func).endswith('.tell') and not st.value.args:
+                pending.append(st.targets[0].id)
+            elif isinstance(st, ast.Expr) and isinstance(st.value, ast.Call) and ast.unparse(st.value.func).endswith('.write') and len(st.value.args) == 1:
+                a = st.value.args[0]
+                if not (isinstance(a, ast.Call) and ast.unparse(a.func) == 'runlength_encode' and len(a.args) == 1
+                        and isinstance(a.args[0], ast.Name) and a.args[0].id in var_attr):
+                    raise TranslateError(f'_lmp_write_visibility: line {st.lineno}: write of something that is not an encoded row')
+                if len(pending) != 1:
+                    raise TranslateError(f'_lmp_write_visibility: line {st.lineno}: a row is written without exactly one fresh offset taken before it')
+                off_attr[pending.pop()] = var_attr[a.args[0].id]
+            elif isinstance(st, ast.Expr) and isinstance(st.value, ast.Call) and ast.unparse(st.value.func).endswith('.set_data'):
+                args = st.value.args[1:]
+                if pending or not all(isinstance(x, ast.Name) and x.id in off_attr for x in args):
+                    raise TranslateError(f'_lmp_write_visibility: line {st.lineno}: set_data arguments are not the offsets taken before the rows')
+                worder = [off_attr[x.id] for x in args]
+            else:
+                raise TranslateError(f'_lmp_write_visibility: line {st.lineno}: statement of the row loop not recognised: {ast.unparse(st)[:60]}')
+    if worder is None:
+        raise TranslateError('_lmp_write_visibility: row loop with set_data not found')
+    fr = _fn(tree, '_lmp_read_visibility')
+    rorder = None
+    for loop in [n for n in ast.walk(fr) if isinstance(n, ast.For)]:
+        names: list[str] = []
+        got: dict[str, str] = {}
+        for st in loop.body:
+            if isinstance(st, ast.Assign) and isinstance(st.targets[0], (ast.List, ast.Tuple)) and isinstance(st.value, ast.Call) \
+                    and ast.unparse(st.value.func).endswith('unpack_from') and all(isinstance(t, ast.Name) for t in st.targets[0].elts):
+                names = [t.id for t in st.targets[0].elts]
+            elif isinstance(st, ast.Expr) and isinstance(st.value, ast.Call) and isinstance(st.value.func, ast.Attribute) and st.value.func.attr == 'append' \
+                    and isinstance(st.value.func.value, ast.Attribute) and len(st.value.args) == 1:
+                c = st.value.args[0]
+                if isinstance(c, ast.Call) and ast.unparse(c.func) == 'runlength_decode' and len(c.args) >= 2 and isinstance(c.args[1], ast.Name):
+                    if c.args[1].id in got:
+                        raise TranslateError(f'_lmp_read_visibility: line {st.lineno}: offset `{c.args[1].id}` is decoded twice')
+                    got[c.args[1].id] = st.value.func.value.attr
+        if names:
+            if set(got) != set(names):
+                raise TranslateError('_lmp_read_visibility: not every unpacked offset is decoded into a row set')
+            rorder = [got[n] for n in names]
+    if rorder is None:
+        raise TranslateError('_lmp_read_visibility: `[a, b] = ....unpack_from(...)` in the cluster loop not found')
+    return worder, rorder
 
 
 # ------------------------------------------------------------------------------------------------ texture string table
@@ -319,7 +387,8 @@ def ent_text(tree: ast.Module) -> dict[str, Any]:
         raise TranslateError('write_ent_data: key/value are not interpolated in this order')
     km, vm = _mode(t[1][1], 'write_ent_data'), _mode(t[3][1], 'write_ent_data')
     # framing: braces, newline, final NUL are compared byte by byte by the correspondence of checks/c11.py
-    vtree = ast.parse(src_text('vmf.py'))
+    from translate import c11_norm
+    vtree = c11_norm.functions(ast.parse(src_text('vmf.py')), {'as_keyvalue'})
     ocls = next((n for n in vtree.body if isinstance(n, ast.ClassDef) and n.name == 'Output'), None)
     if ocls is None:
         raise TranslateError('vmf.py: class Output not found')
@@ -375,16 +444,23 @@ def nl(xs: list[int]) -> str:
 
 
 def translate() -> tuple[str, dict]:
-    from translate import c11_records
-    tree = ast.parse(src_text('bsp.py'))
-    r_expr, r_passes, r_src = vis_reader(tree)
-    w_expr, w_guard, w_src = vis_writer(tree)
-    tx = textures(tree)
+    from translate import c11_dedup, c11_helpers, c11_norm, c11_records
+    tree = c11_norm.module(src_text('bsp.py'))
+    # the statement-shape matchers of this module read a normalised copy (constants, aliases, single-use locals, early continue)
+    gtree = c11_norm.functions(tree, NORMALISED)
+    r_expr, r_passes, r_src = vis_reader(gtree)
+    w_expr, w_guard, w_src = vis_writer(gtree)
+    tx = textures(gtree)
+    vo_w, vo_r = vis_offset_order(gtree)
     rec_text, rec_side = c11_records.generate(tree)
-    et = ent_text(tree)
-    L = ['(* GENERATED by translate/c11_glue.py + c11_records.py from src/srctools/bsp.py. Do not edit. *)',
+    et = ent_text(gtree)
+    dd_text, dd_side = c11_dedup.generate(tree)
+    hp_text, hp_side = c11_helpers.generate(tree)
+    from translate import c11_overlayrec
+    ov_text, ov_side = c11_overlayrec.generate(tree)
+    L = ['(* GENERATED by translate/c11_glue.py + c11_records.py + c11_dedup.py + c11_helpers.py + c11_overlayrec.py from src/srctools/bsp.py, binformat.py, vmf.py. Do not edit. *)',
          'From Coq Require Import List String NArith ZArith.',
-         'From SV Require Import Fmt.BspVisRow Fmt.BspTexStrings Fmt.BspRecords Fmt.BspEntLump.',
+         'From SV Require Import Fmt.BspVisRow Fmt.BspTexStrings Fmt.BspRecords Fmt.BspEntLump Fmt.BspDedup Fmt.BspFlagSplit Fmt.BspOverlayRec.',
          'Import ListNotations.', 'Open Scope string_scope.',
          f'(* runlength_decode: {r_src} *)',
          f'Definition vis_row_reader : rexp := {r_expr}.',
@@ -392,15 +468,21 @@ def translate() -> tuple[str, dict]:
          f'(* _lmp_write_visibility: {w_src} *)',
          f'Definition vis_row_writer : rexp := {w_expr}.',
          f'Definition vis_writer_checks_row_length : bool := {"true" if w_guard else "false"}.',
+         '(* which row set the two offsets of a header entry point at: writer (set_data arguments), reader (unpack targets) *)',
+         'Definition vis_offset_order : list string * list string := ([' + '; '.join(f'"{x}"' for x in vo_w) + '], [' + '; '.join(f'"{x}"' for x in vo_r) + ']).',
          f'Definition tex_cfg : texcfg := ({nl(tx["search_suffix"])}, {nl(tx["append_suffix"])}, {tx["maxlen"]}%nat, {tx["window"]}%nat).',
          f'Definition tex_codec_same : bool := {"true" if tx["codec_same"] else "false"}.',
          f'Definition ent_cfg : entcfg := ({et["key_mode"]}, {et["value_mode"]}, {et["out_name_mode"]}, [{"; ".join(et["out_field_modes"])}]).',
          f'Definition ent_output_sep : N := {et["output_sep"]}%N.',
-         rec_text, '']
+         rec_text, dd_text, hp_text, ov_text, '']
     side = {'vis_row_reader': r_src, 'vis_row_writer': w_src, 'vis_reader_passes_cluster_count': r_passes,
             'vis_writer_checks_row_length': w_guard, 'textures': tx}
     side['ent_text'] = et
+    side['vis_offset_order'] = [vo_w, vo_r]
     side.update(rec_side)
+    side.update(dd_side)
+    side.update(hp_side)
+    side.update(ov_side)
     return '\n'.join(L), side
 
 
